@@ -395,9 +395,9 @@ fn property_on_output(text: &str, chars: &[char], lex: Option<&[Vec<char>]>, lim
 // generators
 // ------------------------------------------------------------------------------------------------
 const TERMS: [&str; 9] = ["。", "？", "！", "♪", "…", "?", "!", ".", "．"];
-const OTHER: [&str; 40] = [
+const OTHER: [&str; 46] = [
     "・", "・・・", ",", "，", "、", "<br>", "<BR>", "<br><br>", "<BR><br>", "<br", "br>", "<", ">", "a", "Z", "1", "９", "ａ", "〇", "十", "兆", "と", "っ", "で", "す",
-    "や", "の", " ", "\n", "\t", "　", "あ", "京", "都", "に", "行", "た", "x", "😀", "é",
+    "や", "の", " ", "\n", "\t", "　", "あ", "京", "都", "に", "行", "た", "x", "😀", "é", "\r", "\u{a0}", "\u{2028}", "\u{85}", "\u{b}", " \n",
 ];
 
 fn gen_text(rng: &mut Rng, maxlen: usize) -> String {
@@ -632,7 +632,19 @@ pub fn run(args: &Args) {
         sink.tag("corpus");
     }
     let n = args.n(1300, 30000);
+    let nlong = args.n(4, 40);
+    let mut longs = 0;
     for k in 0..n {
+        // texts longer than the default window, one per shard (their model evaluation is the slowest)
+        if k % sink.shard_size == 60 && longs < nlong {
+            longs += 1;
+            let extra = rng.below(200) as usize;
+            let text = long_text(&mut rng, 4100 + extra);
+            let chars: Vec<char> = text.chars().collect();
+            let lex = if rng.chance(1, 2) { Some(gen_lexicon(&mut rng, &chars[..40])) } else { None };
+            one_case(&mut sink, &text, 4096, &lex, false);
+            sink.tag("long_text_default_window");
+        }
         let text = match k % 4 {
             0 => gen_directed(&mut rng),
             1 => gen_text(&mut rng, 8),
@@ -642,15 +654,6 @@ pub fn run(args: &Args) {
         let limit = gen_limit(&mut rng, chars.len());
         let lex = if rng.chance(1, 2) { Some(gen_lexicon(&mut rng, &chars)) } else { None };
         one_case(&mut sink, &text, limit, &lex, false);
-    }
-    // texts longer than the default window
-    for _ in 0..args.n(3, 40) {
-        let extra = rng.below(200) as usize;
-        let text = long_text(&mut rng, 4100 + extra);
-        let chars: Vec<char> = text.chars().collect();
-        let lex = if rng.chance(1, 2) { Some(gen_lexicon(&mut rng, &chars[..40])) } else { None };
-        one_case(&mut sink, &text, 4096, &lex, false);
-        sink.tag("long_text_default_window");
     }
     sink.finish();
 }
